@@ -47,6 +47,26 @@ CHECKS = {
         text="The same connection machinery in strict wake-only mode with the closed-loop peer of the quantifier; invariant evaluated at every suspension on the transport read (all replies for complete records already read are in the transport log) and wait-for-cycle detection at quiescence, with queries placed before, between and during requests and mid-stream. Found and now guards the two repaired defects F1/F2.",
         note="Trusted: executor strictness (a task is polled only after its waker fired), M-conn reply list. Valid under the closed-loop peer only (whole records, later ones withheld).",
         technique=TECH + ": strict deterministic executor + closed-loop peer, suspension-point invariant and deadlock detection"),
+    "C09": dict(engine="D2", cat="exploration", ref="DESIGN.md 4/C09",
+        text="Seeded search over handler call sequences on the async read interfaces (poll_read with buffers of 0..70000 bytes, poll_fill_buf+consume(k), set_stream, writeable()), transport read patterns and write-side readiness, with management records arriving mid-stream; bytes received per stream compared with M-stream (prefix; equality and sticky end-of-file once end-of-file was seen), is_writeable() sampled after every poll against the model's gating condition, output_stream()/set_stream() rejections probed under catch_unwind.",
+        note="Trusted: M-stream, M-conn. Compliant client.",
+        technique=TECH + ": deterministic executor + simulated transport, handler-visible reads vs. reference model"),
+    "C10": dict(engine="D2", cat="exploration", ref="DESIGN.md 4/C10",
+        text="1..3 writers on separately woken sub-futures plus a reader sub-future, seeded poll order, write sizes incl. 0/65535/65536+, flushes, a transport cutting every vectored write anywhere (inside the header, at the seam, inside padding) or returning Pending: the transport log must decode into complete records which, in completion order, equal the successful writes (type, id, payload, padding rule), with management replies as whole records.",
+        note="Trusted: wire decoder; completion order equals lock-release order in a single-threaded executor.",
+        technique=TECH + ": deterministic executor with per-sub-future wakers + write-cutting transport, log decoded and compared"),
+    "C11": dict(engine="D1+D2", cat="exploration", ref="DESIGN.md 4/C11",
+        text="Sync: own-id AbortRequest after a random stream-phase record is reported, sticky, retained and skipped by the next request parser; during Params it yields exactly one EndRequest and no request. Async: aborts at random stream-phase positions in 1..3-request connections with reading / buffered-reading / non-reading / past-EOF handlers that propagate or swallow the error; EndRequest count and status (ABRT unless the handler chose its own), ConnectionAborted only where the model has the abort, delivered input a prefix, foreign-id aborts ignored, next request served.",
+        note="Trusted: M-stream/M-conn abort rules. Empty Stdout/Stderr records after an abort are treated as optional.",
+        technique=TECH + ": caller-schedule simulator + deterministic executor, abort placed at seeded record positions"),
+    "C12": dict(engine="D2", cat="fault_enumeration", ref="DESIGN.md 4/C12",
+        text="Per seeded scripted connection the fault points are enumerated: EOF at every input byte offset, a read error at every read call, a one-shot write error and a one-shot zero-length write at every write call, each in a fresh run replaying the script's choice list. Checked: termination without panic or spinning, no handler for an incompletely received preamble, end-of-file seen by a handler only behind a delivered terminator (short reads surface as errors), no write after a failed write, log = well-formed prefix consistent with the handler log.",
+        note="Trusted: executor step cap as the spin detector (a poll that never returns would hang the check instead). Handlers propagate I/O errors.",
+        technique=TECH + ": fault-point enumeration over a replayed seeded script (EOF / read error / write error / zero write at every index)"),
+    "C14": dict(engine="D2", cat="exploration", ref="DESIGN.md 4/C14",
+        text="Connection side: Runner::shutdown requested as a scheduler event at a seeded step (before the first read, mid-preamble, during the handler, during close, between requests, idle); started requests complete with their EndRequest, no handler starts in a poll that begins after the request, idle connections stop without another transport read, the shutdown future is Ready only after the token is dropped and its task is woken for it.",
+        note="Trusted: executor strictness for the wake-up clauses. A management reply being written by an idle connection may be cut by shutdown (statement is silent).",
+        technique=TECH + ": deterministic executor with shutdown as a scheduled event"),
 }
 
 NOT_APPLICABLE = [
